@@ -41,10 +41,14 @@ class Lock:
         self.f.close()
 
 
+HARNESS_ENV = {}   # optional per-check additions (check module attribute ENV), applied last
+
+
 def env_clean():
     e = dict(os.environ)
     e.setdefault("ASAN_OPTIONS", "detect_leaks=0:abort_on_error=0:exitcode=99:allocator_may_return_null=0")
     e.setdefault("UBSAN_OPTIONS", "print_stacktrace=1:halt_on_error=1:exitcode=98")
+    e.update(HARNESS_ENV)
     return e
 
 
@@ -418,6 +422,8 @@ def run_check(spec, tier, seed, replay=None):
     t0 = time.time()
     pid = spec.ID
     rng = random.Random(seed)
+    HARNESS_ENV.clear()
+    HARNESS_ENV.update(getattr(spec, "ENV", {}))
     violations = []       # (replay_path, suffix)
     known_lines = []
     notes = []
